@@ -71,7 +71,7 @@ def bounded(what, fn, *a, **k):
     raise v
 
 
-class HarnessError(Exception):
+class HarnessError(BaseException):
     """The machinery itself misbehaved (never a verdict about the property)."""
 
 
@@ -168,6 +168,7 @@ class Check(Partial):
         self.exhaustive = None
         self.notes = {}
         self.workers = int(os.environ.get('VF_WORKERS', '0')) or min(16, os.cpu_count() or 1)
+        self._findings = None
 
     @property
     def quick(self):
@@ -180,10 +181,27 @@ class Check(Partial):
     def note(self, key, value):
         self.notes[key] = value
 
+    def failing(self):
+        """True once a violation that is not a listed known finding has been recorded: the verdict of this run is settled,
+        and the remaining (possibly very slow on a broken tree) parts need not run."""
+        if os.environ.get('VF_NO_FAIL_FAST'):
+            return False
+        if self._findings is None:
+            self._findings = load_findings()
+        return any(not match_finding(self._findings, self.id, v['sig']) for v in self.violations)
+
+    def skip_after_violation(self, what):
+        if self.failing():
+            self.cap('%s not run: an earlier part of this run already found a violation' % what)
+            return True
+        return False
+
     def pmap(self, fn, items, chunksize=1):
         """Run fn(item) -> Partial in forked workers and merge the results (order preserved)."""
         items = list(items)
         if not items:
+            return
+        if self.skip_after_violation('%d jobs of %s' % (len(items), getattr(fn, '__name__', 'a part'))):
             return
         if self.workers <= 1 or len(items) == 1:
             for it in items:
@@ -197,6 +215,9 @@ class Check(Partial):
                     if isinstance(part, _WorkerFailure):
                         raise HarnessError('worker failed:\n' + part.text)
                     self.merge(part)
+                    if part.violations and self.failing():
+                        self.cap('remaining jobs of %s not awaited: a violation was found' % getattr(fn, '__name__', 'a part'))
+                        break
             except JobTimeout as e:
                 # a job of this check takes seconds to a few minutes: code under test that no longer returns
                 idx = e.index
